@@ -2,19 +2,19 @@
   C06 part 2 – an abstract machine for the argument shuffle (`BaseEmitHelper::emit_args_assignment`).
 
   A location is a physical register (group, id), a slot of the incoming stack-argument area, or a slot of the outgoing
-  (destination) stack area.  A location holds a *token*: which argument's value it contains and whether that value already
-  has the width/extension its destination type requires.  Instructions are the ones `emit_arg_move` / `emit_reg_move` /
-  `emit_reg_swap` emit (x86: mov movzx movsx movsxd xchg movd movq movaps movups movdqa kmov*; a64: mov fmov ldr* str*),
-  given by name + operands, with their architectural effect on extension:
-    * `movsx/movsxd/ldrs*`                 sign-extend from the source operand size
-    * `movzx`, `mov` to a 32-bit register, `ldrb/ldrh/ldr w`   zero-extend
-    * `mov` between 64-bit registers, vector moves, `xchg`      copy bits, extend nothing
+  (destination) stack area.  A location holds a *token* `(var, sv, dv)`:
+    * `sv` – the low `size(source type)` bytes are the argument as it was passed (bytes above are unspecified, as the ABIs say);
+    * `dv` – the location holds the argument in the form its destination requires: the low `size(destination type)` bytes are
+             the value sign- or zero-extended from the source type (when the destination is not wider: the low min(size) bytes).
+  Instructions are the ones `emit_arg_move` / `emit_reg_move` / `emit_reg_swap` emit, given by mnemonic + operands, with their
+  architectural effect `(kind, c, w)`: `c` low bytes of the source are copied, then extended by `kind` up to `w` bytes
+  (a write to a 32-bit GP register zeroes bits 32..63; `mov r64,r64`, vector moves, `xchg r64` copy and extend nothing).
   The monitor `shuffleOk` is the post-condition of the property: every destination ends up holding the value of its argument,
-  extended as its type requires.
+  extended as its type requires (`dv`).  Byte overlap between different stack slots is not modelled (slots are keyed by offset).
 -/
-import AsmjitVerif.Model.CallConv
+import AsmjitVerif.Model.ArgShuffle
 namespace AsmjitVerif.Machine
-open AsmjitVerif.CallConv
+open AsmjitVerif.CallConv AsmjitVerif.Shuffle
 
 inductive Loc
   | reg (group id : Nat)
@@ -22,12 +22,13 @@ inductive Loc
   | outStack (off : Int)     -- relative to sp
   deriving DecidableEq, Repr
 
-inductive Ext | none | zero | sign
+inductive Ext | none | zero | sign | fwiden | fnarrow     -- fwiden: float -> double, fnarrow: double -> float
   deriving DecidableEq, Repr
 
 structure Tok where
   var : Nat
-  ext : Bool       -- already extended as the destination type requires
+  sv : Bool
+  dv : Bool
   deriving DecidableEq, Repr
 
 abbrev State := List (Loc × Tok)
@@ -37,105 +38,153 @@ def State.set (s : State) (l : Loc) (t : Option Tok) : State :=
   let s := s.filter (·.1 != l)
   match t with | some t => (l, t) :: s | none => s
 
-/-- register group of a RegType (operand.h RegTraits): Gp 0, Vec 1, Mask 2, MM 3 -/
-def groupOf (rt : Nat) : Nat := if rt ≤ 6 then 0 else if rt ≤ 15 then 1 else if rt = 16 then 2 else if rt = 28 then 3 else 9
-def regBytes (rt : Nat) : Nat :=
-  if rt = 2 || rt = 3 then 1 else if rt = 4 then 2 else if rt = 5 then 4 else if rt = 6 then 8
-  else if rt = 9 then 4 else if rt = 10 then 8 else if rt = 11 then 16 else if rt = 12 then 32 else if rt = 13 then 64 else 8
-
 def isSigned (t : Nat) : Bool := isInt t && t % 2 == 0
-
-/-- what a move from a value of type `st` into a destination of type `dt` has to do -/
-def required (dt st : Nat) : Ext :=
-  if dt = 0 || st = 0 || tySize dt ≤ tySize st then .none
-  else if isInt dt && isInt st then (if isSigned dt && isSigned st then .sign else .zero)
-  else .none
-
-inductive Opnd
-  | reg (rtype id : Nat)
-  | mem (base : Nat) (off : Int) (size : Nat)
-  deriving DecidableEq, Repr
-
-structure Inst where
-  name : String
-  ops : List Opnd
-  deriving Repr
-
-/-- extension performed by a register-destination move, from its name and operand sizes -/
-def performed (name : String) (dstRt : Nat) (srcBytes : Nat) : Ext × Nat :=   -- (kind, from bytes)
-  -- AArch64 loads carry their access size in the mnemonic (the memory operand has none)
-  let srcBytes := if name == "ldrsb" || name == "ldrb" then 1 else if name == "ldrsh" || name == "ldrh" then 2
-                  else if name == "ldrsw" then 4 else if name == "ldr" then regBytes dstRt else srcBytes
-  if name == "movsx" || name == "movsxd" || name == "ldrsb" || name == "ldrsh" || name == "ldrsw" then (.sign, srcBytes)
-  else if name == "movzx" || name == "ldrb" || name == "ldrh" then (.zero, srcBytes)
-  else if (name == "mov" || name == "ldr") && groupOf dstRt = 0 && regBytes dstRt ≤ 4 then (.zero, min srcBytes 4)
-  else (.none, srcBytes)
 
 structure VarInfo where
   srcType : Nat
   dstType : Nat
-  deriving Repr
+  deriving DecidableEq, Repr
 
-/-- does executing the move give the token the required extension? -/
-def extendsOk (vars : List VarInfo) (tok : Tok) (name : String) (dstRt srcBytes : Nat) : Bool :=
-  match vars[tok.var]? with
-  | none => false
-  | some v =>
-    let (k, frm) := performed name dstRt srcBytes
-    match required v.dstType v.srcType with
-    | .none => true
-    | .zero => tok.ext || (k == .zero && frm == tySize v.srcType)
-    | .sign => tok.ext || (k == .sign && frm == tySize v.srcType && regBytes dstRt ≥ tySize v.dstType)
+def VarInfo.S (v : VarInfo) : Nat := tySize v.srcType
+def VarInfo.D (v : VarInfo) : Nat := if v.dstType = 0 then tySize v.srcType else tySize v.dstType
 
-/-- memory operand → location. Loads read the incoming arguments (`saBase` + `saOff` addresses their base), stores write the
-    outgoing area (relative to `sp`). -/
-def loadLoc (saBase : Nat) (saOff : Int) (base : Nat) (off : Int) : Option Loc :=
-  if base = saBase then some (.argStack (off - saOff)) else none
+/-- what a move of a value of the source type into a destination of the destination type has to do: integers that get wider are
+    sign-extended when both types are signed and zero-extended otherwise; nothing else is extended -/
+def VarInfo.required (v : VarInfo) : Ext :=
+  if scalarOf v.dstType = tFloat64 && scalarOf v.srcType = tFloat32 then .fwiden
+  else if scalarOf v.dstType = tFloat32 && scalarOf v.srcType = tFloat64 then .fnarrow
+  else if v.D ≤ v.S then .none
+  else if isInt v.dstType && isInt v.srcType then (if isSigned v.dstType && isSigned v.srcType then .sign else .zero)
+  else .none
+
+/-- bytes a destination-form token must carry -/
+def VarInfo.need (v : VarInfo) : Nat := if v.required = .none then min v.D v.S else v.D
+
+/-- architectural effect of a register-destination move: (kind, bytes copied, bytes defined) -/
+def effect (n : Mn) (dstRt : Nat) (srcBytes : Nat) : Option (Ext × Nat × Nat) :=
+  let gpDst := groupOf dstRt = 0
+  match n with
+  | .movsx | .movsxd => some (.sign, srcBytes, if regBytes dstRt ≤ 4 then 4 else 8)
+  | .ldrsb => some (.sign, 1, regBytes dstRt)
+  | .ldrsh => some (.sign, 2, regBytes dstRt)
+  | .ldrsw => some (.sign, 4, regBytes dstRt)
+  | .movzx => some (.zero, srcBytes, 8)
+  | .ldrb => some (.zero, 1, 8)
+  | .ldrh => some (.zero, 2, 8)
+  | .mov | .ldr =>
+    if gpDst then (if regBytes dstRt ≤ 4 then some (.zero, 4, 8) else some (.none, 8, 8))
+    else some (.none, regBytes dstRt, regBytes dstRt)
+  | .fmov => some (.none, regBytes dstRt, regBytes dstRt)
+  | .movd | .movss | .kmovd => some (.none, 4, 4)
+  | .movq | .movsd | .kmovq | .movq2dq | .movdq2q => some (.none, 8, 8)
+  | .kmovb => some (.none, 1, 1)
+  | .kmovw => some (.none, 2, 2)
+  | .movaps | .movups | .movapd | .movdqa | .vmovdqa32 => some (.none, min (regBytes dstRt) srcBytes, min (regBytes dstRt) srcBytes)
+  | .cvtss2sd | .cvtps2pd => some (.fwiden, srcBytes, regBytes dstRt)
+  | .cvtsd2ss | .cvtpd2ps => some (.fnarrow, srcBytes, regBytes dstRt)
+  | .xchg | .str | .strb | .strh => none
+
+/-- bytes written by a store -/
+def storeBytes (n : Mn) (srcRt memSize : Nat) : Option Nat :=
+  match n with
+  | .strb => some 1
+  | .strh => some 2
+  | .str => some (regBytes srcRt)
+  | .mov | .movaps | .movups | .movapd | .movdqa | .vmovdqa32 => some memSize
+  | .movd | .movss | .kmovd => some 4
+  | .movq | .movsd | .kmovq => some 8
+  | .kmovb => some 1
+  | .kmovw => some 2
+  | _ => none
+
+def isStoreMn : Mn → Bool | .str | .strb | .strh => true | _ => false
+
+/-- the token after it went through an instruction with effect `(k, c, w)` -/
+def moveTok (vars : List VarInfo) (t : Tok) (k : Ext) (c w : Nat) : Tok :=
+  match vars[t.var]? with
+  | none => { t with sv := false, dv := false }
+  | some vi =>
+    { var := t.var
+      sv := t.sv && decide (c ≥ vi.S) && k != .fwiden && k != .fnarrow
+      dv := (t.dv && decide (c ≥ vi.need)) ||
+            (t.sv && vi.required != .none && k == vi.required &&
+              ((k == .fwiden || k == .fnarrow) || (c == vi.S && decide (w ≥ vi.D)))) }
+
+/-- a load addresses the incoming arguments through `sp` (displacement `saOffSp`) or through the register that carries the
+    stack-argument pointer (displacement `saOffSa`); which register that is at the time of the load is trusted, not tracked -/
+def loadLoc (sp : Nat) (saOffSp saOffSa : Int) (base : Nat) (off : Int) : Option Loc :=
+  if base = sp then some (.argStack (off - saOffSp)) else some (.argStack (off - saOffSa))
 def storeLoc (sp : Nat) (base : Nat) (off : Int) : Option Loc :=
   if base = sp then some (.outStack off) else none
 
-def step (vars : List VarInfo) (saBase : Nat) (saOff : Int) (sp : Nat) (s : State) (i : Inst) : Option State :=
+def step (vars : List VarInfo) (saOffSp saOffSa : Int) (sp : Nat) (s : State) (i : Inst) : Option State :=
   match i.ops with
   | [.reg ra a, .reg rb b] =>
     let la := Loc.reg (groupOf ra) a
     let lb := Loc.reg (groupOf rb) b
-    if i.name == "xchg" then
-      some ((s.set la (s.get lb)).set lb (s.get la))
+    if i.name == .xchg then
+      let (k, c) := if regBytes ra ≤ 4 then (Ext.zero, 4) else (Ext.none, 8)
+      some ((s.set la ((s.get lb).map fun t => moveTok vars t k c 8)).set lb ((s.get la).map fun t => moveTok vars t k c 8))
     else
-      match s.get lb with
-      | none => some (s.set la none)
-      | some t => some (s.set la (some { t with ext := extendsOk vars t i.name ra (regBytes rb) }))
-  | [.reg ra a, .mem base off size] =>
-    if i.name.startsWith "str" then      -- AArch64 stores name the register first
-      match storeLoc sp base off with
+      match effect i.name ra (regBytes rb) with
       | none => none
-      | some l => some (s.set l (s.get (.reg (groupOf ra) a)))
+      | some (k, c, w) => some (s.set la ((s.get lb).map fun t => moveTok vars t k c w))
+  | [.reg ra a, .mem base off size] =>
+    if isStoreMn i.name then      -- AArch64 stores name the register first
+      match storeLoc sp base off, storeBytes i.name ra size with
+      | some l, some c => some (s.set l ((s.get (.reg (groupOf ra) a)).map fun t => moveTok vars t .none c c))
+      | _, _ => none
     else
-    match loadLoc saBase saOff base off with
-    | none => none
-    | some l =>
-      match s.get l with
-      | none => some (s.set (.reg (groupOf ra) a) none)
-      | some t => some (s.set (.reg (groupOf ra) a) (some { t with ext := extendsOk vars t i.name ra size }))
-  | [.mem base off _, .reg rb b] =>
-    match storeLoc sp base off with
-    | none => none
-    | some l => some (s.set l (s.get (.reg (groupOf rb) b)))
+      match loadLoc sp saOffSp saOffSa base off, effect i.name ra size with
+      | some l, some (k, c, w) => some (s.set (.reg (groupOf ra) a) ((s.get l).map fun t => moveTok vars t k c w))
+      | _, _ => none
+  | [.mem base off size, .reg rb b] =>
+    match storeLoc sp base off, storeBytes i.name rb size with
+    | some l, some c => some (s.set l ((s.get (.reg (groupOf rb) b)).map fun t => moveTok vars t .none c c))
+    | _, _ => none
   | _ => none
 
-def run (vars : List VarInfo) (saBase : Nat) (saOff : Int) (sp : Nat) : State → List Inst → Option State
+def run (vars : List VarInfo) (saOffSp saOffSa : Int) (sp : Nat) : State → List Inst → Option State
   | s, [] => some s
-  | s, i :: is => match step vars saBase saOff sp s i with
+  | s, i :: is => match step vars saOffSp saOffSa sp s i with
     | none => none
-    | some s' => run vars saBase saOff sp s' is
+    | some s' => run vars saOffSp saOffSa sp s' is
 
-/-- post-condition: destination `d` of variable `v` holds `v`, extended as required -/
-def destOk (vars : List VarInfo) (s : State) (v : Nat) (d : Loc) : Bool :=
-  match s.get d, vars[v]? with
-  | some t, some vi => t.var == v && (t.ext || required vi.dstType vi.srcType == .none)
-  | _, _ => false
+/-- initial token of argument `v` -/
+def initTok (vars : List VarInfo) (v : Nat) : Tok :=
+  { var := v, sv := true, dv := match vars[v]? with | some vi => vi.required == .none | none => false }
 
-def shuffleOk (vars : List VarInfo) (dests : List (Nat × Loc)) (s : State) : Bool :=
-  dests.all fun (v, d) => destOk vars s v d
+/-- post-condition: destination `d` of variable `v` holds `v` in destination form -/
+def destOk (s : State) (v : Nat) (d : Loc) : Bool :=
+  match s.get d with
+  | some t => t.var == v && t.dv
+  | none => false
+
+def shuffleOk (dests : List (Nat × Loc)) (s : State) : Bool :=
+  dests.all fun (v, d) => destOk s v d
+
+/-- variable infos, initial machine state and destinations of an assignment `(source location, requested destination)*`:
+    what `shuffle_correct` and the monitor judge a schedule against -/
+def setup (vals : List (FuncValue × Option FuncValue)) : List VarInfo × State × List (Nat × Loc) :=
+  let vars : List VarInfo := vals.map fun (src, dd) =>
+    match dd with
+    | some o => { srcType := src.typeId,
+                  dstType := if o.typeId ≠ 0 then o.typeId else if o.isReg then typeIdOfReg o.regType else src.typeId }
+    | none => { srcType := src.typeId, dstType := src.typeId }
+  let idx := List.range vals.length
+  let init : State := (idx.zip vals).filterMap fun (i, src, dd) =>
+    match dd with
+    | none => none
+    | some _ =>
+      if src.isReg then some (Loc.reg (groupOf src.regType) src.regId, initTok vars i)
+      else if src.isStack then some (Loc.argStack src.stackOffset, initTok vars i) else none
+  let dests : List (Nat × Loc) := (idx.zip vals).filterMap fun (i, _, dd) =>
+    dd.map fun o => (i, if o.isReg then Loc.reg (groupOf o.regType) o.regId else Loc.outStack o.stackOffset)
+  (vars, init, dests)
+
+/-- the judgement: `none` = the schedule contains something the machine does not know; `some b` = post-condition holds / fails -/
+def judge (arch : Arch) (f : FrameIn) (vals : List (FuncValue × Option FuncValue)) (insts : List Inst) : Option Bool :=
+  let (vars, init, dests) := setup vals
+  (run vars f.saOffSp f.saOffSa (spId arch) init insts).map (shuffleOk dests)
 
 end AsmjitVerif.Machine
